@@ -32,6 +32,24 @@ impl PlugCb for Cb {
     }
 }
 
+// ---- static fact the model assumes: only connections of Sync implementations can be shared between threads ------
+#[savefile_derive::savefile_abi_exportable(version = 0)]
+pub trait SendOnly: Send {
+    fn bump(&self) -> u32;
+}
+struct Probe<T: ?Sized>(std::marker::PhantomData<T>);
+trait NotSyncDefault {
+    const IS_SYNC: bool = false;
+}
+impl<T: ?Sized> NotSyncDefault for Probe<T> {}
+impl<T: ?Sized + Sync> Probe<T> {
+    // an inherent constant takes precedence over the trait's when the bound holds
+    const IS_SYNC: bool = true;
+}
+pub fn non_sync_connection_is_sync() -> bool {
+    Probe::<AbiConnection<dyn SendOnly>>::IS_SYNC
+}
+
 pub fn run(seed: u64, nthreads: usize, plugin: &str) -> Value {
     savefile_abi::verif_hooks::SINK.set(Box::new(emit)).ok();
     JITTER.store(seed.wrapping_mul(0x2545F4914F6CDD1D) | 1, Ordering::Relaxed);
@@ -149,5 +167,8 @@ pub fn run(seed: u64, nthreads: usize, plugin: &str) -> Value {
             json!({"t": tid, "l": l, "k": k})
         })
         .collect();
-    json!({"seed": seed, "threads": nthreads, "events": events, "hung": hung, "results_ok": *results_ok.lock().unwrap()})
+    // a connection to an implementation that is Send but not Sync must not be shareable (calls on it would race)
+    let results = *results_ok.lock().unwrap() && !non_sync_connection_is_sync();
+    json!({"seed": seed, "threads": nthreads, "events": events, "hung": hung, "results_ok": results,
+           "sync_leak": non_sync_connection_is_sync()})
 }
